@@ -88,7 +88,9 @@ def broadcast(self, other):
             newobj = newobj.repeat(newaxis.values, axis=newaxis.name)
         elif newaxis.size == 1 and newobj.axes[newaxis.name].values[0] is None:
             # new dimension with a single label: take that label (instead of the placeholder None)
-            newobj.axes[newaxis.name] = Axis(newaxis.values.copy(), newaxis.name)
+            # (in a new array: reshape returns the operand itself when the dimensions already match)
+            axes = [Axis(newaxis.values.copy(), newaxis.name) if ax.name == newaxis.name else ax for ax in newobj.axes]
+            newobj = newobj._constructor(newobj.values, axes, **newobj.attrs)
 
     return newobj
 
